@@ -282,3 +282,21 @@ def c19_extra(pid, tier, seed, outdir):
 
 
 PROPS["C19"]["extra"] = c19_extra
+
+PROPS["C01"]["go_tests"] = ["TestVerifStore", "TestVerifPoolAlias"]
+PROPS["C01"]["impl_only_traces"] = ["poolalias"]
+PROPS["C01"]["rule"] = STORE_RULE + "; plus, for the entry-pool configurations (outside the model), concurrent runs of 8 goroutines on pool-enabled plain and loading stores of 4..13 entries over 48 keys, checking that every value read for a key was written or loaded for that key"
+PROPS["C01"]["assumptions"] = ["the theorems cover the entry pool disabled; with the pool enabled only the 'never a value of another key' clause is exercised, by a concurrent harness (testing)"]
+
+# store-level part of C04 / C03: ticks and reads of the real Store under the deterministic driver
+PROPS["C04"]["go_tests"] = ["TestVerifWheel", "TestVerifStore"]
+PROPS["C04"]["project_codes"] = {"store": ["4", "11"]}
+PROPS["C04"]["monitor_tags"] = ["C04"]
+PROPS["C04"]["rule"] += "; plus the store histories (" + STORE_RULE[:120] + "...): after every maintenance tick no entry whose deadline has passed and whose events have been delivered may still be resident"
+PROPS["C03"]["go_tests"] = ["TestVerifExpiry", "TestVerifStore"]
+PROPS["C03"]["project_codes"] = {"store": ["0", "5", "8"]}
+PROPS["C03"]["monitor_tags"] = ["C03"]
+
+PROPS["C03"]["go_tests"] = ["TestVerifExpiry", "TestVerifStore", "TestVerifTickerStall"]
+PROPS["C03"]["impl_only_traces"] = ["tickerstall"]
+PROPS["C03"]["rule"] += "; plus the real ticker goroutine: the policy lock is held by the harness for 2.5 s of real time while the virtual clock jumps 40 s past a 31 s deadline, then Get must miss"
